@@ -145,8 +145,8 @@ Definition read_param (nchars : Z) : RD (param * Z) :=
   tb <- rd_int 1 ;;
   ty <- (if (tb =? -1)%Z then rret TChar else if (tb =? 1)%Z then rret TByte
          else if (tb =? 2)%Z then rret TInt else if (tb =? 4)%Z then rret TFloat else rthrow IosFailure) ;;
-  nd <- rd_int 1 ;;
-  dims <- (if (nd =? 0)%Z then rret [1] else rd_many (Z.to_nat nd) (rd_uint 1)) ;;
+  nd <- rd_uint 1 ;;
+  dims <- (if nd =? 0 then rret [1] else rd_many (N.to_nat nd) (rd_uint 1)) ;;
   vals <- (match ty with
            | TChar => s <- read_strings dims ;; rret ([], [], s)
            | TByte => v <- read_ints 1 dims ;; rret (v, [], [])
